@@ -1223,7 +1223,7 @@ def parts(tier):
             run,
             strategy=histories(40 if tier == "quick" else 60),
             n={"quick": 1600, "thorough": 16000},
-            require=_require(),
+            require={"quick": _require(), "thorough": {k: 5 * v for k, v in _require().items()}},
             shards={"quick": 16, "thorough": 16},
             case_timeout_s=60.0,
         )
